@@ -179,7 +179,7 @@ func (x *exec) judge() *verdict {
 	// update is never acknowledged. What the calls that DO report success mean is judged as always below.
 	for _, o := range x.ops {
 		done, err := o.op.Result()
-		if x.sc.FailNth > 0 {
+		if x.sc.FailNth > 0 || o.cancelled {
 			continue
 		}
 		switch {
